@@ -657,6 +657,9 @@ func init() {
 		"internal/godebug.(*Setting).IncNonDefault":  mNop,
 		"time.Now":                                   func(in *Interp, fn *ssa.Function, a []Value) Value { return in.zeroResults(fn) },
 		"time.Since":                                 func(in *Interp, fn *ssa.Function, a []Value) Value { return in.i64(0) },
+		// environment assumption: the process's local time zone is UTC (initLocal reads $TZ and /etc/localtime;
+		// an empty Location is UTC by time's own rules). The native replay runs with TZ=UTC.
+		"time.initLocal": mNop,
 		"(*github.com/go-faster/yaml.Node).ShortTag": func(in *Interp, fn *ssa.Function, a []Value) Value { return in.strConst("<tag>") },
 	}
 	for k, v := range modelTab {
